@@ -806,9 +806,9 @@ theorem C16_build_authority_host (e : Env) (a : BuildArgs) (u : Url) (hb : build
     lowering a non-ASCII scheme is an oracle call). -/
 theorem C16_build_authority_nfkc_screen (e : Env) (a : BuildArgs) (nn : Str) (henc : a.encoded = false) :
     isAscii a.authority = false →
-    e.o.nfkc (a.authority.filter (fun c => c ≠ 64 ∧ c ≠ 58 ∧ c ≠ 35 ∧ c ≠ 63)) = some nn →
-    nn ≠ a.authority.filter (fun c => c ≠ 64 ∧ c ≠ 58 ∧ c ≠ 35 ∧ c ≠ 63) →
-    (∃ c ∈ nn, c = 47 ∨ c = 63 ∨ c = 35 ∨ c = 64 ∨ c = 58) →
+    e.o.nfkc (a.authority.filter (fun c => c ≠ 64 ∧ c ≠ 58 ∧ c ≠ 35 ∧ c ≠ 63 ∧ c ≠ 91 ∧ c ≠ 93)) = some nn →
+    nn ≠ a.authority.filter (fun c => c ≠ 64 ∧ c ≠ 58 ∧ c ≠ 35 ∧ c ≠ 63 ∧ c ≠ 91 ∧ c ≠ 93) →
+    (∃ c ∈ nn, c = 47 ∨ c = 63 ∨ c = 35 ∨ c = 64 ∨ c = 58 ∨ c = 91 ∨ c = 93) →
     (∀ u, build e a ≠ .ok u) ∧
     (a.portKind = 0 → (qargTruthy a.query = true → ∃ o, getStrQuery e.b a.query = .ok o) →
       (∃ sc, lowerAny e a.scheme = .ok sc) → build e a = .error .valueError) := by
